@@ -54,3 +54,23 @@ Example C08_example :
   m_run (new_client (mk stream [1; 1; 1; 0; 4] TEnd false) []) [OCmd "GoToConfig" []; OMsgId; OReceive; OMsgId]
   = [BCmd (BBool true) [[250; 255; 48; 0; 209]%N] 0%N; BNum 49%Z; BRecvOk; BNum 1%Z].
 Proof. vm_compute. reflexivity. Qed.
+
+(* The model IS the code, for the command loop: one iteration of Client.receiveUntil as REGENERATED statement by statement
+   from client.go on this run (Gen/ClientFns.v: Receive, then the identifier comparison, continue or return) agrees with
+   one unfolding of the model's receive_until - a validation failure ends the command with its cause, an accepted
+   frame ends it exactly when it carries the awaited identifier *)
+Require Import Base.GoBytes Gen.ClientFns Lib.Bufio Tie.ClientAgree.
+Theorem C08_command_loop_model_is_the_source : forall c ok s' r' unt,
+  scan (scan_fuel c) (csc c) (crd c) = SR ok s' r' ->
+  (ok = true -> exists t, tok s' = Some t /\ wf_bytes t) ->
+  (0 <= unt < 256)%Z ->
+  let c' := snd (receive c) in
+  rmap step_out (g_Client_receiveUntil_step ok (optb (tok s')) (err_code (sc_err s')) unt (abs c)) =
+  match fst (receive c) with
+  | ROk => match message_identifier c' with
+           | Ok i => Val (if (Z.of_N i =? unt)%Z then Some ROk else None, abs c')
+           | _ => Pan
+           end
+  | r => Val (Some r, abs c')
+  end.
+Proof. exact receive_until_step_agrees. Qed.
